@@ -25,7 +25,8 @@ RULE = ("one evaluation = one generated history (2-4 client sessions, up to 40 o
 COMPONENTS = {"real": ["subsequence/subsequencealignment.py (SubsequenceAlignment, SAMatch, generators)", "dtw.warping_paths / warping_paths_fast",
                        "dtw_ndim.warping_paths(_fast)", "dtw.best_path", "C engine when use_c"],
               "stub": ["client sessions and their interleaving (seeded scheduler)", "reference model: brute-force subsequence DTW in /verif/sim/models/dtw_ref.py"]}
-ASSUMPTIONS = ["bounds: mostly query length 1..6 and series length 1..12 (one history in 12: query 1..12, series 13..48, up to ~60 ops; a third of all series are plateau-rich), ndim 1..2",
+ASSUMPTIONS = ["query and series are handed over as contiguous arrays or (independently, three times in seven each) as strided / reversed / Fortran-ordered views of the same numbers",
+               "bounds: mostly query length 1..6 and series length 1..12 (one history in 12: query 1..12, series 13..48, up to ~60 ops; a third of all series are plateau-rich), ndim 1..2",
                "index/segment comparisons against the fresh twin are skipped when the matching function has near-ties (< 1e-7); values use rel. tol 1e-9"]
 TOL = 1e-9
 
@@ -63,7 +64,10 @@ def gen_history(st):
         # plant the query (so that exact matches and repeats exist)
         at = rng.below(ls - lq + 1)
         ser[at:at + lq] = copy.deepcopy(query)
-    setup = {"query": query, "series": ser, "ndim": ndim, "penalty": rng.choice([0.0, 0.1, 0.1, 0.5, 2.0]), "use_c": bool(rng.below(2))}
+    setup = {"query": query, "series": ser, "ndim": ndim, "penalty": rng.choice([0.0, 0.1, 0.1, 0.5, 2.0]), "use_c": bool(rng.below(2)),
+             # memory layout of the two arrays handed to the library: the same numbers as contiguous arrays (two histories in three)
+             # or as non-contiguous views (every second element of a larger array, a reversed view, Fortran order for multivariate data)
+             "layout": [rng.choice(["c", "c", "c", "c", "strided", "reversed", "fortran"]) for _ in range(2)]}
     nsess = 2 + rng.below(3)
     programs = [[] for _ in range(nsess)]
     sid = 0
@@ -122,9 +126,23 @@ def close(a, b):
 def _mk(setup):
     import numpy as np
     from dtaidistance.subsequence.subsequencealignment import SubsequenceAlignment
-    q = np.array(setup["query"], dtype=np.double)
-    s = np.array(setup["series"], dtype=np.double)
+    lay = setup.get("layout", ["c", "c"])
+    q = _layout(np.array(setup["query"], dtype=np.double), lay[0])
+    s = _layout(np.array(setup["series"], dtype=np.double), lay[1])
     return SubsequenceAlignment(q, s, penalty=setup["penalty"], use_c=setup["use_c"])
+
+
+def _layout(a, kind):
+    import numpy as np
+    if kind == "fortran" and a.ndim == 2:
+        return np.asfortranarray(a)
+    if kind in ("strided", "fortran"):
+        base = np.full((2 * a.shape[0],) + a.shape[1:], 7.75)
+        base[::2] = a
+        return base[::2]
+    if kind == "reversed":
+        return np.ascontiguousarray(a[::-1])[::-1]
+    return a
 
 
 def _open(sa, o):
@@ -412,6 +430,10 @@ def shrink(h):
         out.append(variant(penalty=0.0))
     if setup["use_c"]:
         out.append(variant(use_c=False))
+    lay = setup.get("layout", ["c", "c"])
+    for k in range(2):
+        if lay[k] != "c":
+            out.append(variant(layout=[("c" if j == k else lay[j]) for j in range(2)]))
     if not setup["ndim"]:
         if any(x != round(x) for x in setup["query"] + setup["series"]):
             out.append(variant(query=[float(round(x)) for x in setup["query"]], series=[float(round(x)) for x in setup["series"]]))
